@@ -100,8 +100,37 @@ def run(ctx, prog):
     ctx.rule('C18.R2', 'however the values arrive: KyroDbConfig::load returns Ok only past validate()\'s success edge; '
                        'the server\'s main calls validate() after the CLI overrides, before anything is opened, and '
                        'does not assign config.* afterwards')
-    ctx.not_decided = ['value semantics of is_loopback_host (string predicate) — only that the guards use it',
-                       'serde/env-var parsing of individual settings']
+    ctx.not_decided = ['that the three accepted spellings of is_loopback_host are exactly the loopback addresses (the rule R3 decides only that the classifier is a closed '
+                       'table over the WHOLE host)', 'serde/env-var parsing of individual settings']
+    ctx.rule('C18.R3', 'the bind-host classifier is a closed table over the whole host: every string test in is_loopback_host has the fully normalised host as its subject '
+                       '(trim → strip one pair of brackets → cut the %zone → trim → lower-case) and an accepted constant from the table {== "::1", == "localhost", '
+                       'prefix "127.", prefix "::ffff:127."}; a test on a PART of the host (a split group, a suffix, a substring) or a new spelling fails — it classifies '
+                       'routable addresses such as [fd00::127.0.0.1] as loopback, which switches off the auth and TLS guards of R1')
+    lb = ctx.body('C18.R3', 'config::is_loopback_host')
+    if lb is not None:
+        ov3 = flow.Origin(lb, stop_at_vars=True)
+        nv = lb.var_local('normalized')
+        n_o = flow.render(flow.Origin(lb).of_local(nv[0])) if nv else '?'
+        whole = bool(re.match(r"^str::to_ascii_lowercase\(str::trim\(Option::unwrap_or\(<iter::Split<'a, P> as iterator::Iterator>::next\(str::split\(Option::unwrap_or\(Option::and_then\("
+                              r"str::strip_prefix\(str::trim\(arg:host\), 91\), closure:[^)]*\), str::trim\(arg:host\)\), 37\)\), Option::unwrap_or\(.*\)\)\)\)$", n_o))
+        ctx.inst('C18.R3', lb.short, 'the tested subject is the whole host, normalised', whole, 'normalized = %s' % n_o[:260])
+        ACCEPT = {('eq', '"::1"'), ('eq', '"localhost"'), ('starts_with', '"127."'), ('starts_with', '"::ffff:127."')}
+        tests = []
+        for c in lb.calls:
+            sh = flow.short(c.callee or '')
+            kind = None
+            if re.search(r'PartialEq<.*>>::eq$|PartialEq.*::eq$', sh):
+                kind = 'eq'
+            elif re.search(r'str::(starts_with|ends_with|contains|find|rfind|matches|eq_ignore_ascii_case)$', sh):
+                kind = sh.split('::')[-1]
+            if kind:
+                tests.append((kind, [flow.render(ov3.of_operand(a)) for a in c.args], c.loc))
+        bad = [t for t in tests if not (t[1] and t[1][0] == 'var:normalized' and (t[0], t[1][1] if len(t[1]) > 1 else '') in ACCEPT)]
+        ctx.inst('C18.R3', lb.short, 'every string test is a table entry applied to the whole host', len(tests) >= 3 and not bad,
+                 ('test %s(%s) at %s is not in the table or looks at a part of the host' % (bad[0][0], ', '.join(x[:60] for x in bad[0][1]), bad[0][2])) if bad else
+                 '%d tests: %s' % (len(tests), [(t[0], t[1][1]) for t in tests]))
+        r0 = flow.render(ov3.of_local(0))
+        ctx.inst('C18.R3', lb.short, 'the verdict is the disjunction of those tests (false for an empty host)', bool(re.match(r'^phi\(0 \| 1 \| str::starts_with\(var:normalized, "[^"]*"\)\)$', r0)), 'returns %s' % r0[:160])
     v = ctx.body('C18.R1', 'KyroDbConfig::validate')
     terminals, seen = pathsens.explore(v, ATOMS)
     oks = [t for t in terminals if not t[1]]
